@@ -202,6 +202,36 @@ def schema_of(repo):
     return yaml.safe_load(node.value), node
 
 
+def yaml_machinery(chk, repo, rule):
+    """The YAML loading machinery (yaml_io package) unchanged in normal form
+    from its reviewed references; shared by C12, C13 and C18."""
+    from .. import reviewed
+    import ast as _ast
+    for rel in ('pgradd/yaml_io/yaml_io.py', 'pgradd/yaml_io/lib_interface.py',
+                'pgradd/yaml_io/schema.py', 'pgradd/yaml_io/builtins.py'):
+        for node in _ast.walk(repo.mod(rel).tree):
+            if isinstance(node, _ast.FunctionDef):
+                from ..source import qual as _qual
+                q = _qual(node)
+                if q.count('.') >= 2 and not repo.has_func(rel, q):
+                    continue    # class nested inside a function body
+                if ('%s::%s' % (rel, q)) in reviewed.store():
+                    reviewed.check(chk, rule, repo, rel, q,
+                                   '%s (YAML loading machinery) is unchanged '
+                                   'in normal form from its reviewed '
+                                   'reference' % q)
+    # YAML 1.2 core implicit tags only (a bare `1e3` or `yes` must not be
+    # resolved differently from file to file)
+    tags = repo.module_assign('pgradd/yaml_io/lib_interface.py',
+                              'YAML12_core_implicit_tags')
+    want = sym.expr_key("['tag:yaml.org,2002:' + tag for tag in ['str', "
+                        "'seq', 'map', 'null', 'bool', 'int', 'float']]")
+    chk.ob(rule, sym.Evaluator(record_calls=False).k(
+        tags, sym.State()) == want, 'pgradd/yaml_io/lib_interface.py', tags,
+        key='yaml12-tags', qualname='<module>',
+        what='implicit resolution is restricted to the YAML 1.2 core tags')
+
+
 def run(chk, repo, tier):
     schema, snode = schema_of(repo)
     # ---- R12.1 kinds ------------------------------------------------------
@@ -373,6 +403,7 @@ def run(chk, repo, tier):
         units_store[0].value) == 'lib_data.units', LIB, dl,
         key='units-from-file', what="context['units'] = the file's own "
                                     'units block')
+    yaml_machinery(chk, repo, 'R12.6')
     # ---- R12.5 data -------------------------------------------------------
     nfiles = 0
     for lib in libraries(repo.root):
